@@ -91,4 +91,49 @@ def Delimited (cu : Culture) (used : Nat) (safe : Bool) : List Step → Bool
   | [] => true
   | s :: ss => delimStep cu used safe (follow ss) s && Delimited cu used (lastSafe safe s) ss
 
+/-! ### patterns with embedded parts (`Pat.segmented`): the same criterion with the text that FOLLOWS a step list taken
+    into account (`PyodaProofs/C07Segmented.lean: segmented_roundtrip`) -/
+
+/-- `follow` for a step list that is followed by more text, of which `fo` is known -/
+def followF (fo : Follow) : List Step → Follow
+  | [] => fo
+  | .lit (c :: _) :: _ => .char c
+  | .lit [] :: ss => followF fo ss
+  | .semi :: _ => .char '.'
+  | .num _ _ _ _ minV _ :: _ => if minV ≥ 0 then .digit else .unknown
+  | .dotFrac _ _ _ :: ss =>
+    match followF fo ss with
+    | .stop => .dotOr none
+    | .char c => .dotOr (some c)
+    | _ => .unknown
+  | _ => .unknown
+
+/-- `Delimited` for a step list followed by text described by `fo` -/
+def DelimitedF (cu : Culture) (used : Nat) (fo : Follow) : Bool → List Step → Bool
+  | _, [] => true
+  | safe, s :: ss => delimStep cu used safe (followF fo ss) s && DelimitedF cu used fo (lastSafe safe s) ss
+
+/-- is the output known not to end with `.` after the steps? -/
+def lastSafeList : Bool → List Step → Bool
+  | safe, [] => safe
+  | safe, s :: ss => lastSafeList (lastSafe safe s) ss
+
+def segSteps : Seg → List Step
+  | .plain ss => ss
+  | .date c => c.steps
+  | .time c => c.steps
+
+/-- what the text written by the segments starts with -/
+def segFollow : List Seg → Follow
+  | [] => .stop
+  | sg :: segs => followF (segFollow segs) (segSteps sg)
+
+/-- **DelimitedSegs** (decidable): `Delimited` segment by segment — the plain steps in the outer pattern's culture and
+    field set, an embedded pattern in its own — each against what the following segments write -/
+def DelimitedSegs (cu : Culture) (used : Nat) : Bool → List Seg → Bool
+  | _, [] => true
+  | safe, .plain ss :: segs => DelimitedF cu used (segFollow segs) safe ss && DelimitedSegs cu used (lastSafeList safe ss) segs
+  | safe, .date c :: segs => DelimitedF c.cu c.used (segFollow segs) safe c.steps && DelimitedSegs cu used (lastSafeList safe c.steps) segs
+  | safe, .time c :: segs => DelimitedF c.cu c.used (segFollow segs) safe c.steps && DelimitedSegs cu used (lastSafeList safe c.steps) segs
+
 end Pyoda.Text
